@@ -13,7 +13,7 @@ import tempfile
 from harness import engine
 from harness.core import Prop
 
-SQL = {"ct1": "create table t1 (a varchar(5)) comment = 'c1'", "ct2": "create table t2 (a varchar)", "i1": "insert into t1 values ('x')",
+SQL = {"ct1": "create table t1 (a varchar(5)) comment = 'c1'", "ct2": "create table t2 (a varchar)", "cr1": "create or replace table t1 (a varchar(5)) comment = 'c1'", "i1": "insert into t1 values ('x')",
        "i2": "insert into t2 values ('y')", "cm1": "comment on table t1 is 'c2'", "dt1": "drop table if exists t1", "begin": "begin",
        "commit": "commit", "rollback": "rollback"}
 NOTAB = {"e": False, "n": 0, "c": "", "l": 0}
@@ -174,6 +174,9 @@ class C18(Prop):
             # every kill point of short histories
             dict(name="kills", mode="edges", sample=None if big else 700,
                  consts=dict(base, MaxLen=3 if not big else 4, MaxKill=30, StmtsUsed={"ct1", "i1", "cm1", "ct2", "dt1"})),
+            # replacing a table that has rows, a changed comment and a declared length: every kill point of CREATE OR REPLACE
+            dict(name="kills_replace", mode="edges", sample=None if big else 300,
+                 consts=dict(base, MaxLen=4, MaxKill=30, StmtsUsed={"ct1", "i1", "cm1", "cr1"})),
             # transactions: kill points x BEGIN / COMMIT / ROLLBACK placements
             dict(name="kills_txn", mode="edges", emit="EmitSample", sample=3000 if big else 400, seed_offset=3,
                  consts=dict(base, MaxLen=4, MaxKill=30, StmtsUsed={"ct1", "i1", "cm1", "begin", "commit", "rollback"}, SampleOneIn=5 if big else 40)),
